@@ -2,9 +2,10 @@
    This file holds only the statement, the property theorem and its non-vacuity examples.
    Model: Model/C22.v (plz.FindAllBuildFiles + the godirwalk traversal + findOriginalTask's conversion of BUILD
    file names to package labels + query.isExcluded).  Specification: Proof/C22_Spec.v (by path components). *)
-From PlzV Require Import Base.Harness Model.C22 Proof.C22_Spec Proof.C22.
+From PlzV Require Import Base.Harness Model.C22 Proof.C22_Spec Proof.C22 Proof.C22_Multi.
 
 Definition C22_statement : Prop :=
+ (
   (* for every configuration (BUILD file names, blacklist, experimental dirs; "." not blacklisted), every
      directory `root` given by its components ([] = the repository root) and every tree found there *)
   forall cfg root kids, cfg_ok cfg -> valid_path root -> wf (Dir kids) = true ->
@@ -21,15 +22,34 @@ Definition C22_statement : Prop :=
     (* `//...` (empty directory) is the repository root *)
     /\ expand cfg [] (Dir kids) = expand cfg (path_str []) (Dir kids)
     (* shell completion's isExcluded never hides a directory that the expansion lists *)
-    /\ (is_excluded cfg (path_str root) = true -> excluded_dir cfg root = true).
+    /\ (is_excluded cfg (path_str root) = true -> excluded_dir cfg root = true)
+    (* and the search that completion of `//dir/` runs on it (containsPackage: breadth-first, work queue, skipping
+       isExcluded directories) terminates and says yes exactly when an entry named like a BUILD file is reachable
+       through directories that are not isExcluded - so that it never hides a directory whose `...` expansion
+       lists at least one package *)
+    /\ (exists b, contains_package cfg (path_str root) (Dir kids) = Some b
+                  /\ (b = true <-> cp_reach cfg root (Dir kids)))
+    /\ ((exists chain, is_package cfg root (Dir kids) chain) ->
+        contains_package cfg (path_str root) (Dir kids) = Some true)
+ ) /\
+  (* SEVERAL labels on one command line (findOriginalTaskSet): for every list of labels - `//root/...` labels with
+     the trees found at their roots, in any number and order, nested or merely sharing name prefixes, mixed with
+     other labels - the labels added are exactly the union of what each label stands for: nothing is lost because
+     of an earlier label, nothing is added *)
+  (forall cfg sts, cfg_ok cfg -> Forall starget_ok sts ->
+     exists out, original_task_set cfg (map to_target sts) = Some out
+                 /\ forall l, In l out <-> exists st, In st sts /\ lists cfg st l).
 
 Theorem C22_full : C22_statement.
 Proof.
-  exact (fun cfg root kids Hc Hv Hwf =>
+  exact (conj (fun cfg root kids Hc Hv Hwf =>
            conj (find_exact cfg root kids Hc Hv Hwf)
           (conj (expand_exact cfg root kids Hc Hv Hwf)
           (conj (expand_empty_root cfg (Dir kids))
-                (is_excluded_sound cfg root Hc Hv)))).
+          (conj (is_excluded_sound cfg root Hc Hv)
+          (conj (contains_package_exact cfg root kids Hv Hwf)
+                (completion_covers_expansion cfg root kids Hc Hv Hwf))))))
+          task_set_exact).
 Qed.
 Print Assumptions C22_full.
 
@@ -69,4 +89,40 @@ Example C22_nonvacuous_file_named_like_excluded_dir :
   cfg_ok cfg /\ wf t = true /\ expand cfg (path_str []) t = Some [s "pkg"; s "pkg/alpha"; s "pkg/zeta"].
 Proof.
   split; [intros H; cbn in H; intuition discriminate|]. split; reflexivity.
+Qed.
+
+(* Non-vacuity 3: two `...` labels whose directories share a name prefix (out / output), in both orders, and nested
+   labels: every label is expanded, whatever came before it. *)
+Definition ex_out := [(s "a", ex_pkg [])].
+Definition ex_output := [(s "BUILD", File FReg); (s "lib", ex_pkg [])].
+Example C22_nonvacuous_several_labels :
+  let cfg := Config [s "BUILD"] [] [] in
+  let a := s "all" in
+  Forall starget_ok [SDots [s "out"] ex_out; SDots [s "output"] ex_output; SDots [s "output"; s "lib"] []; SLabel (s "x") (s "y")]
+  /\ original_task_set cfg (map to_target [SDots [s "out"] ex_out; SDots [s "output"] ex_output])
+     = Some [(s "out/a", a); (s "output", a); (s "output/lib", a)]
+  /\ original_task_set cfg (map to_target [SDots [s "output"] ex_output; SDots [s "out"] ex_out])
+     = Some [(s "output", a); (s "output/lib", a); (s "out/a", a)]
+  /\ original_task_set cfg (map to_target [SDots [s "output"] ex_output; SLabel (s "x") (s "y"); SDots [s "output"; s "lib"] [(s "BUILD", File FReg)]])
+     = Some [(s "output", a); (s "output/lib", a); (s "x", s "y"); (s "output/lib", a)].
+Proof.
+  cbv zeta. split; [|repeat split; reflexivity].
+  repeat constructor.
+Qed.
+
+(* Non-vacuity 4: completion of `//src/`: src/app has no BUILD file of its own, holds a blacklisted directory that
+   sorts (and is dequeued) before the sub-directory with the package; the search goes on.  The blacklisted directory
+   itself, and a directory holding nothing else, are not offered. *)
+Example C22_nonvacuous_completion :
+  let cfg := Config [s "BUILD"] [s "node_modules"] [] in
+  let nm := (s "node_modules", Dir [(s "dep", ex_pkg [])]) in
+  let app := [nm; (s "ui", ex_pkg [])] in
+  cfg_ok cfg /\ valid_path [s "src"; s "app"] /\ wf (Dir app) = true
+  /\ contains_package cfg (path_str [s "src"; s "app"]) (Dir app) = Some true
+  /\ expand cfg (path_str [s "src"; s "app"]) (Dir app) = Some [s "src/app/ui"]
+  /\ contains_package cfg (s "src/app/node_modules") (snd nm) = Some false
+  /\ contains_package cfg (s "src/only") (Dir [nm; (s "README", File FReg)]) = Some false.
+Proof.
+  cbv zeta. split; [intros H; cbn in H; intuition discriminate|].
+  split; [repeat constructor|]. repeat split; reflexivity.
 Qed.
